@@ -99,6 +99,15 @@ def _run_one(args) -> Dict[str, Any]:
     tmp = tempfile.mkdtemp(prefix="verif-mut-")
     try:
         shutil.copytree(os.path.join(root, "cisco_acl"), os.path.join(tmp, "cisco_acl"))
+        if case.get("base"):
+            # the mutant is written against a kept behaviour-preserving refactoring: apply that first
+            import subprocess
+
+            verif = os.path.dirname(os.path.dirname(os.path.dirname(os.path.abspath(__file__))))
+            patch = os.path.join(verif, "twins", case["base"], "patch.diff")
+            p = subprocess.run(["git", "apply", "--unsafe-paths", f"--directory={tmp}", patch], cwd=tmp, capture_output=True, text=True)
+            if p.returncode != 0:
+                return {"id": case["id"], "status": "n/a", "why": f"twin {case['base']} does not apply to the current tree"}
         why = apply_edits(tmp, case["edits"])
         if why is not None:
             return {"id": case["id"], "status": "n/a", "why": why}
